@@ -349,6 +349,10 @@ class C19(Property):
         yield from self.small_indent(4 if th else 3, skip=2)
         for _ in range(8000 if th else 800):
             yield self.random_indent(rng)
+        # ---- js: JSONLIterator with rel_seek
+        yield from self.small_js(3 if th else 2, extra=True)
+        for _ in range(6000 if th else 800):
+            yield self.random_js(rng)
         # ---- second helping of the size-dependent families, random this time
         yield from self.long_jl(rng, random_only=(3000 if th else 250))
         for _ in range(600 if th else 60):
@@ -383,6 +387,7 @@ class C19(Property):
         yield from self.file_kinds()
         yield from self.small_rf(3)
         yield from self.small_indent(2)
+        yield from self.small_js(2)
         for _ in range(200 if self.thorough else 30):
             yield self.big_rl(rng)
 
@@ -619,6 +624,56 @@ class C19(Property):
         return {'k': 'in', 't': t, 'm': rng.choice(self.IN_MARGINS), 'nl': rng.choice(self.IN_NEWLINES),
                 'key': rng.choice(['bool', 'bool', 'all'])}
 
+    # ---- JSONLIterator(rel_seek=num/den) on text-mode files of single-byte characters
+    JS_TOKENS = [b'1', b'20', b'"x"', b'', b' ', b'{x', b'[]', b'-7']
+    JS_FRACTIONS = [(0, 1), (1, 10), (1, 4), (1, 3), (1, 2), (2, 3), (3, 4), (9, 10), (99, 100)]
+
+    @staticmethod
+    def js_target(c, num, den):
+        """what _init_rel_seek computes: int(size * rel_seek), in floats like the code"""
+        return int(len(c) * (num / den))
+
+    @staticmethod
+    def js_in_domain(c, num, den):
+        """single-byte characters, and a line break at or after the target (without one the code's
+        alignment loop reads '' for ever)"""
+        if max(c, default=0) >= 128:
+            return False
+        if num == 0:
+            return True
+        t = C19.js_target(c, num, den)
+        return any(b in (10, 13) for b in c[t:])
+
+    def small_js(self, nlines, extra=False):
+        i = 0
+        for n in range(1, nlines + 1):
+            for toks in itertools.product(self.JS_TOKENS, repeat=n):
+                for sep in (b'\n', b'\r\n'):
+                    c = sep.join(toks) + sep
+                    for num, den in self.JS_FRACTIONS:
+                        if not self.js_in_domain(c, num, den):
+                            continue
+                        i += 1
+                        if extra and i % 3:
+                            continue
+                        yield {'k': 'js', 'c': hx(c), 'num': num, 'den': den, 'ign': 0 if i % 4 == 0 else 1,
+                               'mode': 'tf' if i % 41 == 0 else 't'}
+
+    def random_js(self, rng):
+        for _ in range(50):
+            sep = rng.choice([b'\n', b'\n', b'\r\n'])
+            lines = [rng.choice(self.JS_TOKENS if rng.random() < 0.4 else self.JS_TOKENS[:3])
+                     for _ in range(rng.randint(1, 10))]
+            c = b''.join(l + (sep if rng.random() < 0.9 else rng.choice([b'\n', b'\r\n', b'\n\n', b'\r'])) for l in lines)
+            if rng.random() < 0.1:     # a first record longer than the block the alignment loop reads
+                c = b'"' + b'x' * rng.choice([4093, 4094, 4095, 4096, 8191, 9000]) + b'"' + sep + c
+            den = rng.choice([2, 3, 4, 7, 10, 100, 1000])
+            num = rng.randint(0, den - 1)
+            if self.js_in_domain(c, num, den):
+                return {'k': 'js', 'c': hx(c), 'num': num, 'den': den, 'ign': rng.choice([1, 1, 0]),
+                        'mode': 'tf' if rng.random() < 0.1 else 't'}
+        return {'k': 'js', 'c': hx(b'1\n'), 'num': 0, 'den': 1, 'ign': 1, 'mode': 't'}
+
     def deep_cases(self, budget_s):
         rng = self.rng
         # every character the current pattern mentions joins the alphabet
@@ -634,7 +689,9 @@ class C19(Property):
                 yield {'k': 'jl', 'c': hx(c), 'mode': 'b', 'ign': ign}
         while True:
             r = rng.random()
-            if r < 0.05:
+            if r < 0.03:
+                yield self.random_js(rng)
+            elif r < 0.05:
                 yield self.random_rf(rng)
             elif r < 0.1:
                 yield self.random_indent(rng)
@@ -825,6 +882,13 @@ class C19(Property):
             return 'rf %s %d %d' % (hx(content(case)), case['pos'], case['bs'])
         if k == 'in':
             return 'in %s %s %s %s' % (show_cps(case['t']), show_cps(case['m']), show_cps(case['nl']), case['key'])
+        if k == 'js':
+            c = content(case)
+            if not set(c) <= JL_ALLOWED or not self.js_in_domain(c, case['num'], case['den']):
+                return None
+            if case['num'] == 0:
+                return 'js %d zero %s' % (case['ign'], hx(c))
+            return 'js %d %d %s' % (case['ign'], self.js_target(c, case['num'], case['den']), hx(c))
         if k == 'jl':
             c = content(case)
             if not set(c) <= JL_ALLOWED:
@@ -910,14 +974,17 @@ class C19(Property):
         finally:
             close()
 
-    def drain_jsonl(self, content, mode, ign, reverse, pre=0):
+    def drain_jsonl(self, content, mode, ign, reverse, pre=0, rel_seek=None):
         from boltons.jsonutils import JSONLIterator
         f, close = self.open_file(content, mode)
         objs = []
         try:
             if pre:
                 f.read(pre)
-            it = JSONLIterator(f, ignore_errors=bool(ign), reverse=reverse)
+            if rel_seek is None:
+                it = JSONLIterator(f, ignore_errors=bool(ign), reverse=reverse)
+            else:
+                it = JSONLIterator(f, ignore_errors=bool(ign), reverse=reverse, rel_seek=rel_seek)
             try:
                 for o in it:
                     objs.append(o)
@@ -959,6 +1026,15 @@ class C19(Property):
                     else:
                         r = indent(text, margin, nl, key=lambda line: True)
                     return {'text': cps(r) if isinstance(r, str) else ['?']}
+                if k == 'js':
+                    c = content(case)
+                    if not self.js_in_domain(c, case['num'], case['den']):
+                        return {'exc': 'OutsideDomain'}
+                    rs = case['num'] / case['den']
+                    fo, fe = self.drain_jsonl(c, case['mode'], case['ign'], False, rel_seek=rs)
+                    ro, re_ = self.drain_jsonl(c, case['mode'], case['ign'], True, rel_seek=rs)
+                    ao, ae = self.drain_jsonl(c, case['mode'], case['ign'], False)
+                    return {'fwd': fo, 'fexc': fe, 'rev': ro, 'rexc': re_, 'all': ao, 'aexc': ae}
                 if k == 'jl':
                     c = content(case)
                     fo, fe = self.drain_jsonl(c, case['mode'], case['ign'], False)
@@ -1002,7 +1078,7 @@ class C19(Property):
             want = 'b' if case['mode'][0] == 'b' else 's'
             s = show_lines(obs['lines'], lambda l: l[1] if l[0] == want else '!' + l[0] + l[1])
             return s + ('!' + obs['exc'] if 'exc' in obs else '')
-        if k == 'jl':
+        if k in ('jl', 'js'):
             def run(objs, e):
                 return (','.join(self.show_obj(o) for o in objs) if objs else '[]') + ('!' + e if e else '')
             return 'F' + run(obs['fwd'], obs['fexc']) + ' R' + run(obs['rev'], obs['rexc'])
@@ -1013,6 +1089,8 @@ class C19(Property):
         k = case['k']
         self._nt = False
         self.stats[k] = self.stats.get(k, 0) + 1
+        if obs.get('exc') == 'OutsideDomain':
+            return None
         if 'exc' in obs:
             return Failure('raises', '%s case raised %s' % (k, obs['exc']))
         if k == 'sl':
@@ -1021,6 +1099,8 @@ class C19(Property):
             return self.oracle_rl(case, obs)
         if k == 'in':
             return self.oracle_in(case, obs)
+        if k == 'js':
+            return self.oracle_js(case, obs)
         return self.oracle_jl(case, obs)
 
     def oracle_sl(self, case, obs):
@@ -1112,6 +1192,35 @@ class C19(Property):
         self._nt = len(want) >= 2 and case['bs'] < len(head)
         if got_b != want:
             return Failure('rf_lines', '%s = %s, expected %s' % (what, self.brief_lines(got_b), self.brief_lines(want)))
+        return None
+
+    def oracle_js(self, case, obs):
+        """rel_seek: the statement's 'same objects in forward and in reverse mode', read for two iterators started
+        at the same relative position: what the reverse one yields, reversed, followed by what the forward one
+        yields is what a plain forward pass yields (wherever exactly the implementation aligns the position).
+        Judged with ignore_errors only (otherwise the first corrupt line ends each pass somewhere else)."""
+        c = content(case)
+        if has_lone_cr(c) or exotic_lead(c, True) or not case['ign']:
+            self.stats['jl_outside_statement'] = self.stats.get('jl_outside_statement', 0) + 1
+            return None
+        want = []
+        for p in self.expected_lines(c):
+            if not p.strip(JSON_WS):
+                continue
+            try:
+                want.append(json.loads(p.decode('utf-8')))
+            except Exception:
+                pass
+        got = obs['rev'][::-1] + obs['fwd']
+        self._nt = bool(obs['rev']) and bool(obs['fwd'])
+
+        def same(a, b):
+            return len(a) == len(b) and all(type(x) is type(y) and x == y for x, y in zip(a, b))
+        if obs['fexc'] or obs['rexc'] or not same(got, want):
+            return Failure('js_partition', 'JSONLIterator(rel_seek=%d/%d, ignore_errors=True) on %s: reverse %s exc=%s, '
+                           'forward %s exc=%s; together they should be the objects of the file %s'
+                           % (case['num'], case['den'], self.brief(c), self.brief_objs(obs['rev']), obs['rexc'],
+                              self.brief_objs(obs['fwd']), obs['fexc'], self.brief_objs(want)))
         return None
 
     def oracle_jl(self, case, obs):
